@@ -131,6 +131,30 @@ theorem openFt_isolated (v : Variant) (w : World) (i j : Nat) (h : i ≠ j) :
   | none => rfl
   | some c => simp only; rw [modConn_get_ne _ _ _ _ h]; split <;> rfl
 
+theorem disableExt_isolated (v : Variant) (w : World) (i j : Nat) (h : i ≠ j) :
+    (disableExt v w i).conns[j]? = w.conns[j]? := by
+  unfold disableExt
+  cases w.conns[i]? with
+  | none => rfl
+  | some c =>
+    simp only
+    split
+    · exact modConn_get_ne _ _ _ _ h
+    · rfl
+
+theorem extInit_isolated (v : Variant) (w : World) (i j : Nat) (h : i ≠ j) :
+    (extInit v w i).conns[j]? = w.conns[j]? := by
+  unfold extInit
+  cases w.conns[i]? with
+  | none => rfl
+  | some c =>
+    simp only
+    split
+    · split
+      · exact disableExt_isolated v _ i j h
+      · rfl
+    · rfl
+
 /-- a message of connection `i` (any message, any I/O failure) leaves every other record
 untouched — except for the intended non-shared replacement, which closes it exactly once -/
 theorem msgEffect_undisturbed (v : Variant) (w : World) (i j : Nat) (m : Msg) (h : i ≠ j) :
@@ -138,16 +162,8 @@ theorem msgEffect_undisturbed (v : Variant) (w : World) (i j : Nat) (m : Msg) (h
   cases m with
   | init sh =>
     simp only [msgEffect]
-    have h0 : (match w.conns[i]? with
-        | some c => if c.exts > 0 then emit w (.xinit i) else w
-        | none => w).conns = w.conns := by
-      cases w.conns[i]? with
-      | none => rfl
-      | some c => simp only; split <;> rfl
-    have h1 : Undisturbed w (modConn (match w.conns[i]? with
-        | some c => if c.exts > 0 then emit w (.xinit i) else w
-        | none => w) i fun c => { c with st := .normal }) j :=
-      undisturbed_of_eq (by rw [modConn_get_ne _ _ _ _ h, h0])
+    have h1 : Undisturbed w (modConn (extInit v w i) i fun c => { c with st := .normal }) j :=
+      undisturbed_of_eq (by rw [modConn_get_ne _ _ _ _ h, extInit_isolated v w i j h])
     split
     · exact h1
     · exact h1.trans (closeOthers_undisturbed _ i j _)
@@ -195,10 +211,7 @@ theorem msgEffect_isolated (v : Variant) (w : World) (i j : Nat) (m : Msg) (h : 
   | init sh =>
     have := hm sh rfl; subst this
     simp only [msgEffect, if_true]
-    rw [modConn_get_ne _ _ _ _ h]
-    cases w.conns[i]? with
-    | none => rfl
-    | some c => simp only; split <;> rfl
+    rw [modConn_get_ne _ _ _ _ h, extInit_isolated v w i j h]
   | scale k =>
     simp only [msgEffect]
     split
